@@ -1,6 +1,7 @@
-(* C09: what the faithful model refutes (F9b overlapping start schedules), as witnesses computed
-   by vm_compute, and concrete histories showing that the premises of the theorems are
-   satisfiable.  The witnesses are the inputs replayed on the real code by tools/props/C09.py (findings/). *)
+(* C09: concrete histories evaluated by vm_compute - the premises of the theorems are satisfiable, and the inputs that
+   used to contradict the property (F9a zero Next, F9b overlapping start schedules, F13a/b loader panics; all repaired
+   in /repo) now behave as the property demands.  The same inputs are replayed on the real code by
+   tools/props/C09.py (fixed sequences of harness/cmd/cron, findings/). *)
 From Coq Require Import List Bool Arith ZArith Lia String.
 Import ListNotations.
 From BD.Cron Require Import Model Schedule ProofsNext.
@@ -14,11 +15,7 @@ Definition opt_leb (a b : option Z) : bool :=
 
 Definition step_okb (f : string) (s : state) (o : op) : bool :=
   match o with
-  | OTick m w => (60 * m <=? w) &&
-                 match lookup f (tbl s) with
-                 | Some e => (List.length (filter (fun sp => due sp m) (starts e)) <=? 1)%nat
-                 | None => true
-                 end
+  | OTick m w => 60 * m <=? w
   | OHist g st' => if String.eqb g f then opt_leb (st_last (status_of s f)) (st_last st') else true
   | _ => true
   end.
@@ -34,8 +31,7 @@ Fixpoint ticks_monob (ops : list op) : bool :=
 Lemma step_okb_ok : forall f s o, step_okb f s o = true -> step_ok f s o.
 Proof.
   intros f s o H. destruct o as [m w|g st|g on|g c|g|g g'|]; simpl in *; try exact I.
-  - apply andb_true_iff in H as [H1 H2]. apply Z.leb_le in H1. split; [assumption|].
-    intros e He. rewrite He in H2. apply Nat.leb_le. assumption.
+  - apply Z.leb_le. assumption.
   - intros ->. rewrite String.eqb_refl in H. unfold opt_leb, opt_le in *.
     destruct (st_last (status_of s f)), (st_last st); try exact I; try discriminate. apply Z.leb_le. assumption.
 Qed.
@@ -100,24 +96,14 @@ Example former_zero_next_is_silent :
   next feb30 (60 * m0 - 1) = None.
 Proof. vm_compute. repeat split. Qed.
 
-(* F9b: two start schedules of one DAG matching the same minute give two Start calls in that tick: start_once
-   fails without its premise, and so does no_double *)
-Theorem start_once_refuted : exists s m f e,
-  NoDup (map fst (tbl s)) /\ lookup f (tbl s) = Some e /\
-  count (CStart f) (tick_calls s m) = 2%nat.
-Proof.
-  exists (after d_f9b [ORestart]), m0, "d0.yaml", (entry_of (after d_f9b [ORestart]) "d0.yaml").
-  split; [apply nodupb_ok; vm_compute; reflexivity|].
-  split; [vm_compute; reflexivity|].
-  vm_compute. reflexivity.
-Qed.
-
-Theorem no_double_refuted : exists d ops f m,
-  ticks_mono ops /\ starts_at f m (init_state d) ops = 2%nat.
-Proof.
-  exists d_f9b, [ORestart; OTick m0 (60 * m0)], "d0.yaml", m0.
-  split; [apply ticks_monob_ok; vm_compute; reflexivity | vm_compute; reflexivity].
-Qed.
+(* The former F9b witness: two start schedules of one DAG that match the same minute.  One entry per file and
+   operation now: one Start in that tick, one Start for the minute over the history. *)
+Example former_overlap_starts_once :
+  run (init_state d_f9b) [ORestart; OTick m0 (60 * m0); OTick (m0 + 1) (60 * m0 + 60)] = [[]; [CStart "d0.yaml"]; []] /\
+  count (CStart "d0.yaml") (tick_calls (after d_f9b [ORestart]) m0) = 1%nat /\
+  List.length (filter (fun sp => matches sp m0) (starts (entry_of (after d_f9b [ORestart]) "d0.yaml"))) = 2%nat /\
+  starts_at "d0.yaml" m0 (init_state d_f9b) [ORestart; OTick m0 (60 * m0)] = 1%nat.
+Proof. vm_compute. repeat split. Qed.
 
 (* The former F13a / F13b witnesses (a schedule map with an unknown key; a schedule that is only a zone prefix),
    at start-up and through the watcher: since c2912bd / 519d0a6 such a file merely fails to load - the daemon
